@@ -45,9 +45,27 @@ def strip_comments(src: str) -> str:
     return re.sub(r"--.*", "", src)
 
 
-def source_grep() -> list[str]:
+def import_closure(modules: list[str]) -> list[Path]:
+    """files of the given Lean modules and of everything under Panoptica/ or Driver/ they import"""
+    seen, todo = {}, list(modules) + ["Driver.Main"]
+    while todo:
+        m = todo.pop()
+        if m in seen or not (m.startswith("Panoptica") or m.startswith("Driver")):
+            continue
+        f = LEAN / (m.replace(".", "/") + ".lean")
+        if not f.exists():
+            continue
+        seen[m] = f
+        for line in f.read_text().splitlines():
+            mm = re.match(r"\s*import\s+(\S+)", line)
+            if mm:
+                todo.append(mm.group(1))
+    return sorted(seen.values())
+
+
+def source_grep(modules: list[str]) -> list[str]:
     bad = []
-    for f in sorted((LEAN / "Panoptica").rglob("*.lean")) + [LEAN / "Driver" / "Main.lean"]:
+    for f in import_closure(modules):
         txt = strip_comments(f.read_text())
         for m in FORBIDDEN.finditer(txt):
             bad.append(f"{f.relative_to(LEAN)}: {m.group(0).strip()}")
